@@ -1,6 +1,6 @@
 (* extract/Entry_E5d.v — entry points of the reference bookkeeping model (C08). *)
 From Coq Require Import ZArith QArith List String Bool.
-From Pico Require Import Num PyStr Value G_geom G_transform CheckPico Refs Noise Termination Shape Stroke Gradient ObjCache Writeback Defs Entry_E1 Entry_E3 Entry_E5a Entry_E5b Entry_E5c.
+From Pico Require Import Num PyStr Value G_geom G_transform CheckPico Refs Noise Termination Shape Stroke Gradient ObjCache Writeback Defs Flatten Entry_E1 Entry_E3 Entry_E5a Entry_E5b Entry_E5c.
 Import ListNotations.
 Local Open Scope string_scope.
 
@@ -43,6 +43,24 @@ Fixpoint v_nnode (fuel : nat) (n : nnode) : value :=
            | NPI => VS "pi"
            | NEl ns t a kids => VL [VS "el"; v_nsk ns; VS t; VL (map (fun x => VL [v_nsk (fst (fst x)); VS (snd (fst x)); VS (snd x)]) a);
                                     VL (map (v_nnode f) kids)]
+           end
+  end.
+
+(* a leaf is a number, a group is [dissolve; [kids]] *)
+Fixpoint ftree_of (fuel : nat) (v : value) : ftree :=
+  match fuel with
+  | O => FLeaf 0
+  | S f => match v with
+           | VL _ => FGroup (getB (arg 0 v)) (map (ftree_of f) (getL (arg 1 v)))
+           | _ => FLeaf (Z.to_nat (getZ v))
+           end
+  end.
+Fixpoint v_ftree (fuel : nat) (t : ftree) : value :=
+  match fuel with
+  | O => VN
+  | S f => match t with
+           | FLeaf i => VNat i
+           | FGroup d kids => VL [VB d; VL (map (v_ftree f) kids)]
            end
   end.
 
@@ -92,6 +110,9 @@ Definition entry_E5d (orc : oracle) (name : string) (v : value) : option value :
     Some (VL (map v_optS (stroke_split_ids (optS_of (arg 0 v)) (getB (arg 1 v)))))
   else if name =? "add_to_defs" then Some (VL (map VS (add_to_defs (map getS (getL (arg 0 v))) (getS (arg 1 v)))))
   else if name =? "reconvert" then Some (VL (map VS (reconvert (map getS (getL v)))))
+  else if name =? "flatten" then Some (VL (map (v_ftree 64) (flatten (ftree_of 64 v))))
+  else if name =? "replace_el" then
+    Some (VL (map (v_ftree 64) (map (ftree_of 64) (getL (arg 0 v)) ++ replace_el (ftree_of 64 (arg 1 v)) ++ map (ftree_of 64) (getL (arg 2 v)))%list))
   else if name =? "write_field" then
     Some (v_optS (write_field (map (fun e => (getS (arg 0 e), getS (arg 1 e))) (getL (arg 0 v))) (getS (arg 1 v)) (getS (arg 2 v)) (getS (arg 3 v))))
   else if name =? "read_field" then
